@@ -372,4 +372,28 @@ func init() {
 		Old:    "func (p *SendForm) String() string {\n",
 		New:    "func (p *SendForm) String() string {\n\tp.to_c.Ident = p.to_c.Ident + \"\"\n",
 		Expect: "(*process.SendForm).String | printer:String"})
+	addFixture(Fixture{Name: "annotation-overwritten-by-definition-mode", Rule: "R-MODE-ASSIGN-GUARDED", File: "types/modality.go",
+		Old:    "\tmode := (*t).inferModality(labelledTypesEnv, make(map[string]bool))\n",
+		New:    "\tif label, isLabel := (*t).(*LabelType); isLabel {\n\t\tif definition, exists := labelledTypesEnv[label.Label]; exists && definition.Mode != nil {\n\t\t\tlabel.Mode = definition.Mode\n\t\t\treturn\n\t\t}\n\t}\n\tmode := (*t).inferModality(labelledTypesEnv, make(map[string]bool))\n",
+		Expect: "types.AddMissingModalities | store-LabelType.Mode"})
+	addFixture(Fixture{Name: "position-of-the-missing-function", Rule: "R-NIL-DEREF", File: "parser/parser.go",
+		Old:    "return nil, nil, nil, fmt.Errorf(\"invalid calling exec on %s()\", functionName)",
+		New:    "return nil, nil, nil, fmt.Errorf(\"(%s) invalid calling exec on %s()\", function.Position.String(), functionName)",
+		Expect: "parser.expandProcesses | nil-dereference"})
+	addFixture(Fixture{Name: "internal-step-ignores-cancellation", Rule: "R-CANCEL-CHECKED", File: "process/transition.go",
+		Old:    "func TransitionInternally(process *Process, internalTransition func(), re *RuntimeEnvironment) {\n\tselect {\n\tcase <-re.ctx.Done():\n\t\t// If received cancellation request, then stop\n\t\treturn\n\tdefault:\n\t}\n",
+		New:    "func TransitionInternally(process *Process, internalTransition func(), re *RuntimeEnvironment) {\n",
+		Expect: "process.TransitionInternally | rule-call"})
+	addFixture(Fixture{Name: "forward-accepted-off-self", Rule: "R-ROLE-GUARD", File: "process/typechecker.go",
+		Old:    "\tif !isProvider(p.to_c, providerShadowName) {\n\t\treturn TypeErrorf(\"not forwarding on self",
+		New:    "\tif false {\n\t\treturn TypeErrorf(\"not forwarding on self",
+		Expect: "(*process.ForwardForm).typecheckForm | role-of-to_c"})
+	addFixture(Fixture{Name: "split-binder-at-provider-type", Rule: "R-BINDER-TYPE", File: "process/typechecker.go",
+		Old:    "\tgammaNameTypesCtx[p.channel_two.Ident] = NamesType{Type: foundType}",
+		New:    "\tgammaNameTypesCtx[p.channel_two.Ident] = NamesType{Type: providerType}",
+		Expect: "binder-type:p.channel_two"})
+	addFixture(Fixture{Name: "continuation-verdict-dropped", Rule: "R-JUDGEMENT-PROPAGATES", File: "process/typechecker.go",
+		Old:    "\t\tcontinuationError := p.continuation_e.typecheckForm(gammaNameTypesCtx, providerShadowName, providerType, labelledTypesEnv, sigma, globalEnv)\n\n\t\treturn continuationError\n\t} else {\n\t\treturn TypeErrorf(\"expected '%s' to have a unit type (1), but found type '%s' instead\", p.to_c.String(), clientType.String())",
+		New:    "\t\t_ = p.continuation_e.typecheckForm(gammaNameTypesCtx, providerShadowName, providerType, labelledTypesEnv, sigma, globalEnv)\n\n\t\treturn nil\n\t} else {\n\t\treturn TypeErrorf(\"expected '%s' to have a unit type (1), but found type '%s' instead\", p.to_c.String(), clientType.String())",
+		Expect: "(*process.WaitForm).typecheckForm | premise"})
 }
